@@ -149,6 +149,23 @@ pub fn worker(ctx: &WorkerCtx) -> WorkerResult {
     panic!("unknown check {}", ctx.id);
 }
 
+/// Turn the bytes of a libFuzzer crash artifact into a replay body of the given engine.
+pub fn fuzz_artifact_to_replay(id: &str, engine: &str, bytes: &[u8]) -> Value {
+    match engine {
+        "logfmt" => logfmt::replay_body(&crate::fuzzdec::log_case(bytes), "found by fuzz_log"),
+        "tablefmt" => tablefmt::replay_body(id, &crate::fuzzdec::table_case(bytes), "found by fuzz_table"),
+        _ => {
+            let o = match id {
+                "C03" => crate::engine::Oracles { snapshot: true, cursor: true, ..Default::default() },
+                "C04" => crate::engine::Oracles { cursor: true, ..Default::default() },
+                "C10" => crate::engine::Oracles { layout: true, ..Default::default() },
+                _ => crate::engine::Oracles { latest: true, ..Default::default() },
+            };
+            history::replay_body(id, &o, &crate::fuzzdec::history_case(bytes), "found by fuzz_history")
+        }
+    }
+}
+
 /// Replay a saved case; Err(message) if it still fails.
 pub fn replay_value(v: &Value) -> Result<(), String> {
     match v["engine"].as_str().unwrap_or("") {
